@@ -29,12 +29,16 @@ def fmt(sc):
                 s += f":{e[4]}"
         elif e[1] == "insuff":
             s = f"{e[0]}:insuff"
+        elif e[1] == "rel":
+            s = f"{e[0]}:rel:{e[2]}"
         else:
             s = f"{e[0]}:check:{e[2]}:{e[3]}"
         evs.append(s)
     head = "sc "
     if sc.get("nomedium"):
         head += "nomedium=1 "
+    if sc.get("gate"):
+        head += "gate=1 "
     return (head + f"klp={sc['klp']} sps={sc['sps']} q={sc['q']} qmax={sc['qmax']} delay={sc['delay']} "
             f"subs={','.join(sc['subs']) or '-'} top={sc['top']} mode={sc['mode']} ev={';'.join(evs) or '-'} end={sc['end']}")
 
@@ -49,9 +53,11 @@ def parse(op):
                 evs.append([int(p[0]), "pub", int(p[2]), int(p[3]), int(p[4]) if len(p) > 4 else 1])
             elif p[1] == "insuff":
                 evs.append([int(p[0]), "insuff"])
+            elif p[1] == "rel":
+                evs.append([int(p[0]), "rel", int(p[2])])
             else:
                 evs.append([int(p[0]), "check", int(p[2]), int(p[3])])
-    return {"nomedium": kv.get("nomedium") == "1", "klp": int(kv["klp"]), "sps": int(kv["sps"]), "q": int(kv["q"]),
+    return {"gate": kv.get("gate") == "1", "nomedium": kv.get("nomedium") == "1", "klp": int(kv["klp"]), "sps": int(kv["sps"]), "q": int(kv["q"]),
             "qmax": int(kv["qmax"]), "delay": int(kv["delay"]),
             "subs": [] if kv["subs"] in ("-", "") else kv["subs"].split(","), "top": int(kv["top"]),
             "mode": kv["mode"], "ev": evs, "end": int(kv["end"])}
@@ -63,6 +69,12 @@ def medium_enabled(sc):
 
 def deterministic(sc):
     """Scenarios whose outcome does not depend on goroutine scheduling (see the harness header)."""
+    if sc.get("gate"):
+        # tokens may let several broadcasts through back to back: race-free only for monotone single-epoch
+        # publications without markers / checks (an ended subscriber's removal is asynchronous)
+        offs = [e[2] for e in sc["ev"] if e[1] == "pub"]
+        return (sc["mode"] == "each" and all(b > a for a, b in zip(offs, offs[1:]))
+                and not any(e[1] in ("insuff", "check") or (e[1] == "pub" and e[4] != 1) for e in sc["ev"]))
     if sc["mode"] == "each":
         return True
     if medium_enabled(sc) and sc["q"] and sc["delay"] == 0:
@@ -80,7 +92,81 @@ def deterministic(sc):
     return True
 
 
+def gen_gated(rng):
+    """The writer is held inside broadcasts while bursts arrive: the queue's ring buffer wraps, grows and shrinks
+    with the head off-centre.  No overflow unless qmax is small."""
+    top = rng.choice([0, 5, 10, 1000])
+    subs = ["n"] + [rng.choice(["p", "n", "s"]) for _ in range(rng.randint(0, 2))]
+    rng.shuffle(subs)
+    t, o, evs, held = 100, top, [], 0
+    for _ in range(rng.randint(3, 12)):
+        for _ in range(rng.choice([1, 2, 3, 4, 5, 7])):
+            if rng.random() < 0.03:
+                evs.append([t, "insuff"])          # (makes the scenario oracle-only)
+            else:
+                o += 1
+                evs.append([t, "pub", o, rng.choice([2, 5, 10]), 1])
+            held += 1
+        t += rng.choice([5, 20, 50])
+        k = rng.choice([0, 1, 1, 2, 3, held])
+        if k:
+            evs.append([t, "rel", k])
+            held = max(0, held - k)
+            t += rng.choice([5, 20])
+    return {"gate": True, "nomedium": False, "klp": rng.randint(0, 1), "sps": rng.randint(0, 1), "q": 1,
+            "qmax": rng.choice([0, 0, 0, 100000, 30]), "delay": 0, "subs": subs, "top": top, "mode": "each",
+            "ev": evs, "end": t + 200}
+
+
+def gen_queue(rng):
+    """Add/Remove walk over publicationQueue: fill and drain phases so that the ring wraps, doubles and halves
+    with the head at every offset."""
+    ops, n = [], 0
+    for _ in range(rng.randint(2, 10)):
+        for _ in range(rng.choice([1, 2, 3, 5, 8, 13])):
+            ops.append("i" if rng.random() < 0.05 else "a")
+            n += 1
+        for _ in range(rng.choice([0, 1, 2, 3, 5, n, n + 1])):
+            ops.append("r")
+            n = max(0, n - 1)
+    return f"q cap={rng.choice([1, 2, 2, 2, 3, 4])} ops={','.join(ops)}"
+
+
+def oracle_queue(op, out):
+    """publicationQueue is a FIFO: Remove returns what was added, in Add order, nothing lost or invented;
+    Len / Size are those of the queued items."""
+    ops = dict(w.split("=", 1) for w in op.split()[1:])["ops"].split(",")
+    toks = out.split()
+    if any(t.startswith("PANIC") for t in toks):
+        return "publicationQueue panicked: " + out[-120:]
+    if len(toks) != len(ops):
+        return None
+    fifo, nid = [], 0
+    for o, t in zip(ops, toks):
+        f = t.split(":")
+        if o in ("a", "i"):
+            nid += 1
+            fifo.append((nid, o == "i"))
+            st = f[1]
+        else:
+            want = "-"
+            if fifo:
+                i, ins = fifo.pop(0)
+                want = f"I{i}" if ins else str(i)
+            if f[1] != want:
+                return f"Remove returned {f[1]}, the FIFO head is {want}"
+            st = f[2]
+        cnt, _, size = st.split("/")
+        if int(cnt) != len(fifo):
+            return f"Len() = {cnt} with {len(fifo)} items queued"
+        if int(size) != sum(i % 5 + 1 for i, ins in fifo if not ins):
+            return f"Size() = {size} does not match the queued publications"
+    return None
+
+
 def gen(rng):
+    if rng.random() < 0.2:
+        return gen_gated(rng)
     klp, sps, q = (rng.randint(0, 1) for _ in range(3))
     delay = rng.choice([0, 0, 20, 50]) if q else (20 if rng.random() < 0.03 else 0)
     qmax = rng.choice([0, 15, 25, 40, 100]) if q else 0
@@ -164,7 +250,15 @@ def oracle(op, out):
     if med:
         if bc is None:
             return ("medium enabled but no medium was created", dict(base, kind="no-medium"))
+        if "NIL" in bc:
+            return ("the medium handed a zero-valued queue entry (nil publication) to the broadcast",
+                    dict(base, kind="nil-broadcast"))
         bcp = [x for x in bc if x != "M"]
+        total = sum(e[3] for e in sc["ev"] if e[1] == "pub")
+        if sc["q"] and sc["delay"] == 0 and "n" in sc["subs"] and total <= (sc["qmax"] or 16 * 1024 * 1024) \
+                and bcp != incoming:
+            return (f"queue without delay and below its size bound must forward every publication in order: "
+                    f"got {bcp} for {incoming}", dict(base, kind="queue-lost-or-reordered"))
         if not is_subseq(bcp, incoming):
             return (f"medium broadcast {bcp} is not an in-order subsequence of the channel's publications {incoming}",
                     dict(base, kind="medium-order"))
@@ -291,8 +385,50 @@ def run(ctx):
                       signature={"kind": "harness-build"}, replay={"log": getattr(ctx, "build_error", "")},
                       no_input=True)
         return
+    # --- phase 1: publicationQueue itself (white box) against the ring model and a FIFO list
     if ctx.replay:
-        ops = json.load(open(ctx.replay)).get("ops", [])
+        rops = json.load(open(ctx.replay)).get("ops", [])
+        qops = [o for o in rops if o.startswith("q ")]
+    else:
+        qops = ["q cap=2 ops=a,r,a,a,a,a,r,a,a,r,r,r,r,r,r", "q cap=2 ops=a,a,a,r,r,a,a,a,a,a,r,r,r,r,r,r,r,r",
+                "q cap=2 ops=a,r,a,i,a,a,r,a,a,r,r,r,r,r"] + [gen_queue(ctx.rng) for _ in range(ctx.scale(400, 20000))]
+    if qops:
+        qimpl = ctx.go_run(binary, "TestVerifC38Queue", qops)
+        qmodel = ctx.lean_run(qops) or []
+        nq = 0
+        for i, op in enumerate(qops):
+            a = qimpl[i] if i < len(qimpl) else "<missing>"
+            b = qmodel[i] if i < len(qmodel) else "<missing>"
+            ctx.record(op, nontrivial=True)
+            ctx.count("queue-walks")
+            if a == "<missing>":
+                ctx.count("harness-error")
+                continue
+            if any(int(t.split("/")[-2]) != int(u.split("/")[-2]) for t, u in zip(a.split(), a.split()[1:]) if "/" in t and "/" in u):
+                ctx.count("queue-resizes")
+            msg = oracle_queue(op, a)
+            if msg:
+                nq += 1
+                if nq <= 2:
+                    from vlib.core import ddmin
+                    ol = op.split("ops=")[1].split(",")
+                    head = op.split("ops=")[0]
+
+                    def bad(sub):
+                        o2 = head + "ops=" + ",".join(sub)
+                        r = ctx.go_run(binary, "TestVerifC38Queue", [o2])
+                        return bool(r) and oracle_queue(o2, r[0]) is not None
+                    small = head + "ops=" + ",".join(ddmin(ol, bad))
+                    sout = ctx.go_run(binary, "TestVerifC38Queue", [small])
+                    ctx.violation("property", "publicationQueue: " + (oracle_queue(small, sout[0]) or msg),
+                                  signature={"kind": "queue-fifo"}, replay={"ops": [small], "impl": sout, "original_op": op})
+            elif a != b and qmodel:
+                ctx.violation("correspondence", f"publicationQueue and the ring model differ: impl `{a[-80:]}` model `{b[-80:]}`",
+                              signature={"kind": "diff-queue"}, replay={"ops": [op], "impl": [a], "model": [b]},
+                              no_input=True)
+        ctx.log("queue phase done")
+    if ctx.replay:
+        ops = [o for o in json.load(open(ctx.replay)).get("ops", []) if o.startswith("sc ")]
     else:
         corpus = [l.strip() for l in open("props/C38/corpus.ops") if l.strip() and not l.startswith("#")]
         ops = corpus + [fmt(gen(ctx.rng)) for _ in range(ctx.scale(700, 30000))]
@@ -314,6 +450,8 @@ def run(ctx):
         ctx.record(op, nontrivial=med and npub >= 2)
         det = deterministic(sc)
         ctx.count("medium:" + ("on" if med else "off"))
+        if sc.get("gate"):
+            ctx.count("gated-writer")
         ctx.count(f"opts:q={sc['q']},delay={int(sc['delay'] > 0)},sps={sc['sps']},klp={sc['klp']}")
         ctx.count("mode:" + sc["mode"] + (":det" if det else ":racy"))
         if out.startswith("harness-error") or out == "<missing>":
